@@ -50,6 +50,8 @@ def spec(draw, n, depth, fn, herm_only):
         kinds += ["spsd"]
     if fn in ("exp", "exp_nosing", "apply_unary") and depth > 0:
         kinds += ["neg"]  # a negative multiple (spectrum on the negative axis, where these functions are defined)
+    if fn in ("sqrt", "isqrt", "log", "pow", "exp", "exp_nosing", "apply_unary"):
+        kinds += ["cmul"]  # c * (M / c): the inner operator alone is outside the domain, the multiple is inside
     if depth > 0:
         kinds += ["bd", "bd"]
         if any(1 < d < n for d in range(2, n) if n % d == 0):
@@ -64,6 +66,11 @@ def spec(draw, n, depth, fn, herm_only):
                 "repeated": draw(st.integers(1, 3)) == 1, "single": draw(st.integers(1, 5)) == 1}
     if k == "gen":
         return {"k": k, "n": n, "seed": seed, "cplx": draw(st.booleans()), "single": draw(st.integers(1, 6)) == 1}
+    if k == "cmul":
+        cs = [[-2.0, 0.0], [-0.5, 0.0], [-1.0, 0.0]] + ([] if herm_only else [[2 * np.cos(0.9 * np.pi), 2 * np.sin(0.9 * np.pi)], [np.cos(0.8 * np.pi), -np.sin(0.8 * np.pi)], [0.0, 1.5]])
+        inner = {"k": "pd" if herm_only or draw(st.booleans()) else "gen", "n": n, "seed": seed, "cplx": draw(st.booleans()), "declare": "none",
+                 "repeated": False, "single": False}
+        return {"k": "cmul", "c": draw(st.sampled_from(cs)), "ch": [inner]}
     if k in ("diag", "eye", "smul"):
         return {"k": k, "n": n, "seed": seed}
     if k in ("T", "H"):
@@ -96,7 +103,9 @@ def cases(draw, tier):
             "vseed": draw(st.integers(0, 10**6)), "ncol": draw(st.sampled_from([0, 0, 1, 3])),
             "max_iters": draw(st.sampled_from(["n", "n", "n+3", "default"])), "zero_col": draw(st.integers(1, 6)) == 1,
             # the returned operator is applied to another operand first (an eigenvector: smallest Krylov space; or zero)
-            "pre": draw(st.sampled_from(["none", "none", "eigvec", "zero"]))}
+            "pre": draw(st.sampled_from(["none", "none", "eigvec", "zero"])),
+            # round 6: the same operator object first gets the same function through another dense algorithm
+            "first_alg": draw(st.sampled_from(["none", "none", "none", "Eig", "Eig", "Auto", "Eigh"]))}
     if fn == "exp_nosing":
         case["fn"] = fn = "exp"
     if fn == "pow":
@@ -173,6 +182,11 @@ def build(s):
     if k == "neg":
         A, M, c = parts[0]
         return s["c"] * A, s["c"] * M, c
+    if k == "cmul":
+        _, M, c = parts[0]
+        cc = complex(*s["c"]) if s["c"][1] else float(s["c"][0])
+        inner = M / cc
+        return cc * ops.Dense(inner), cc * inner, c
     if k == "T":
         A, M, c = parts[0]
         return ops.Transpose(A), M.T, c
@@ -266,7 +280,7 @@ def check(case, out):
               "root:" + rootk, "complex" if np.iscomplexobj(M) else "real", "ncol:%d" % case["ncol"], "max_iters:" + case["max_iters"])
     alg = make_alg(case, n)
     herm = np.allclose(M, M.conj().T)
-    if case["alg"] in ("Eigh", "Lanczos") and not A.isa(cola.SelfAdjoint) and herm and rootk in ("pd", "spsd"):
+    if case["alg"] in ("Eigh", "Lanczos") and not A.isa(cola.SelfAdjoint) and herm and rootk in ("pd", "spsd", "cmul"):
         A = cola.SelfAdjoint(A)
     rng = np.random.default_rng(case["vseed"])
     shape = (n, ) if case["ncol"] == 0 else (n, case["ncol"])
@@ -278,6 +292,19 @@ def check(case, out):
     nonint = fn in ("sqrt", "isqrt", "log", "exp", "apply_unary") or (fn == "pow" and not float(case["a"]).is_integer())
     out.nontrivial = rootk not in ("pd", "gen") or case["alg"] in ("Lanczos", "Arnoldi") or not herm or np.iscomplexobj(M) or nonint
     extra = () if alg is None else (alg, )
+    fa = case.get("first_alg", "none")
+    if fa == "Eigh" and not A.isa(cola.SelfAdjoint):
+        fa = "Eig"
+    if fa != "none" and fa != case["alg"]:
+        out.label("first_alg:" + fa)
+        try:
+            a1 = getattr(L, fa)()
+            F1 = L.pow(A, case["a"], a1) if fn == "pow" else L.apply_unary(UNARY_FN[case["f"]], A, a1) if fn == "apply_unary" else getattr(L, fn)(A, a1)
+            F1 @ v
+        except Exception as e:
+            if not oracle.is_contract_refusal(e):
+                out.fail("call", site + ":first:" + fa, oracle.exc_man(e), e)
+                return
     try:
         if fn == "pow":
             F = L.pow(A, case["a"], *extra)
